@@ -1350,4 +1350,66 @@ theorem final_truthful_state (fixed : Bool) (cfg : Cfg) (s : State) (hinv : Inv 
       (r := s.results) (by simp [stopRun, St.isFinal]) (by simp [stopRun]) (by simpa [stopRun] using hmap)
     exact final_exec fixed cfg w2 hinv' (st := .error) (m := .task c m) ⟨a, by rw [b]; rfl, by rw [c']; rfl⟩
 
+/-! ### several jobs in one process: the product machine -/
+
+/-- A job that exists in a process is stepped by the events addressed to it and by nothing else:
+after any process history — events on other jobs and creations of further jobs interleaved at will —
+its state is the single-job run over its own events, and the answers it gave are those of that run. -/
+theorem proc_run_proj (fixed : Bool) (W : List PEv) :
+    ∀ (P : Proc) (i : Nat) (cfg : Cfg) (s : State), P[i]? = some (cfg, s) →
+      (exec (pstep fixed) P W)[i]? = some (cfg, exec (step fixed cfg) s (proj i W)) ∧
+      answersTo i (run (pstep fixed) P W).2 = (run (step fixed cfg) s (proj i W)).2 := by
+  induction W with
+  | nil => intro P i cfg s h; exact ⟨h, rfl⟩
+  | cons a W ih =>
+    intro P i cfg s h
+    have hlt : i < P.length := by
+      rcases Nat.lt_or_ge i P.length with hl | hl
+      · exact hl
+      · rw [List.getElem?_eq_none hl] at h; cases h
+    cases a with
+    | create c =>
+      have h' : (P ++ [(c, init c)])[i]? = some (cfg, s) := by
+        rw [List.getElem?_append_left hlt]; exact h
+      obtain ⟨h1, h2⟩ := ih _ i cfg s h'
+      refine ⟨?_, ?_⟩
+      · rw [exec_cons]; exact h1
+      · rw [run_cons]; exact h2
+    | on j e =>
+      by_cases hj : j = i
+      · subst hj
+        have hstep : pstep fixed P (.on j e) =
+            (P.set j (cfg, (step fixed cfg s e).1), some (j, (step fixed cfg s e).2)) := by
+          simp only [pstep, h]
+        have h' : (P.set j (cfg, (step fixed cfg s e).1))[j]? = some (cfg, (step fixed cfg s e).1) := by
+          rw [List.getElem?_set_self hlt]
+        obtain ⟨h1, h2⟩ := ih _ j cfg _ h'
+        refine ⟨?_, ?_⟩
+        · rw [exec_cons, hstep]
+          simp only [proj, if_true]
+          rw [exec_cons]; exact h1
+        · rw [run_cons, hstep]
+          simp only [proj, if_true, answersTo]
+          rw [run_cons, h2]
+      · have hproj : proj i (PEv.on j e :: W) = proj i W := by simp [proj, hj]
+        cases hP : P[j]? with
+        | none =>
+          have hstep : pstep fixed P (.on j e) = (P, some (j, .disabled)) := by
+            simp only [pstep, hP]
+          obtain ⟨h1, h2⟩ := ih P i cfg s h
+          refine ⟨?_, ?_⟩
+          · rw [exec_cons, hstep, hproj]; exact h1
+          · rw [run_cons, hstep, hproj]; simp only [answersTo, if_neg hj]; exact h2
+        | some x =>
+          obtain ⟨c, t⟩ := x
+          have hstep : pstep fixed P (.on j e) =
+              (P.set j (c, (step fixed c t e).1), some (j, (step fixed c t e).2)) := by
+            simp only [pstep, hP]
+          have h' : (P.set j (c, (step fixed c t e).1))[i]? = some (cfg, s) := by
+            rw [List.getElem?_set_ne hj]; exact h
+          obtain ⟨h1, h2⟩ := ih _ i cfg s h'
+          refine ⟨?_, ?_⟩
+          · rw [exec_cons, hstep, hproj]; exact h1
+          · rw [run_cons, hstep, hproj]; simp only [answersTo, if_neg hj]; exact h2
+
 end PM.C18
